@@ -18,6 +18,14 @@
 //! generated geographic point, the plane input of the left hand instance is that image mapped
 //! by the relation; the two geographic results must agree (compared as ground metres).
 //!
+//! Longitude presentation: every relation whose two instances are fed the SAME raw longitude (all but
+//! the central-meridian ones) is also evaluated on raw longitudes outside of the nominal [-180, 180]
+//! degrees: an in-domain point moved by +-1 and +-2 full turns, written 0..360 (or -360..0) style, the
+//! exact raw values +-180, +-360, +-540, +-720 and free raw values out to +-720 degrees (where they name
+//! a point of the domain). Both instances get the bit-identical raw value, so the relation must hold
+//! within the same tolerance whether or not an operator wraps its input; periodicity itself is NOT
+//! asserted (C01/C05/C14), and the lon_0 relation stays literal (no wrapping demanded).
+//!
 //! Only parameters listed in the gamut of the projection are used (transcribed from
 //! src/inner_op/*.rs): omerc has no lon_0 (its `lonc` is checked as an extra under its own key),
 //! laea has no k_0, webmerc/utm/butm take only the ellipsoid (and zone/south).
@@ -139,6 +147,89 @@ struct Case {
     /// relations are asserted on the domain points only, whatever else is in the set and wherever
     #[serde(default)]
     intruders: Vec<Intruder>,
+    /// longitude presentation of point i (parallel to `pts`, missing = nominal): the raw input longitude
+    /// fed, bit-identically, to both instances. Ignored by the central-meridian relations.
+    #[serde(default)]
+    pres: Vec<Pres>,
+}
+
+/// kind 0 = nominal (central meridian + offset; `lon` unused), otherwise `lon` is the raw longitude in degrees
+#[derive(Clone, Debug, Serialize, Deserialize)]
+struct Pres {
+    kind: u8,
+    lon: F,
+}
+
+const PRES_NAMES: [&str; 9] = ["nominal", "+1turn", "-1turn", "+2turns", "-2turns", "0..360", "exact-multiple-of-180", "free-raw-to-720", "-360..0"];
+/// presented points appended to the points of every case of a same-raw-longitude relation
+const NPRES: usize = 8;
+
+fn wrap180(x: f64) -> f64 {
+    x - 360.0 * (x / 360.0).round()
+}
+
+fn centre_of(proj: Proj, bg: &Bg) -> f64 {
+    match proj {
+        Omerc => bg.lonc.map(|f| f.0).unwrap_or(0.0),
+        Utm | Butm => 6.0 * bg.zone.unwrap_or(31) as f64 - 183.0,
+        _ => bg.lon_0.map(|f| f.0).unwrap_or(0.0),
+    }
+}
+
+/// is (longitude offset d from the central meridian, latitude), degrees, a point of the domain the
+/// generator draws from (see `point`)? The latitude is that of a generated point, i.e. in range already.
+fn in_lon_domain(proj: Proj, bg: &Bg, d: f64, lat: f64) -> bool {
+    let dist = |lat0: f64| -> f64 {
+        vcore::refmath::great_circle(1.0, 0.0, lat0.to_radians(), d.to_radians(), lat.to_radians()).0.to_degrees()
+    };
+    match proj {
+        Merc | Webmerc | Lcc => true,
+        Tmerc | Utm => d.abs() <= 30.0,
+        Btmerc | Butm => d.abs() <= 3.0,
+        Laea => dist(bg.lat_0.map(|f| f.0).unwrap_or(0.0)) <= 150.0,
+        Omerc => dist(bg.latc.map(|f| f.0).unwrap_or(0.0)) <= 10.0,
+        Somerc => dist(bg.lat_0.map(|f| f.0).unwrap_or(0.0)) <= 10.0,
+    }
+}
+
+/// Present the domain point (offset d from the central meridian, lat) with a raw longitude outside of the
+/// nominal range. Returns (effective kind, offset of the presented point, raw longitude); kinds 6 and 7
+/// choose the raw value first and keep it if it names a point of the domain (else: a full turn).
+fn present(proj: Proj, bg: &Bg, d: f64, lat: f64, kind: u8, u: f64) -> (u8, f64, f64) {
+    let centre = centre_of(proj, bg);
+    let nominal = centre + d;
+    let turn = |k: u8| -> (u8, f64, f64) {
+        let t = [360.0, -360.0, 720.0, -720.0][(k - 1) as usize];
+        (k, d, nominal + t)
+    };
+    let fallback = || turn(1 + (((u + 1.0) * 2.0) as u8).min(3));
+    match kind {
+        1..=4 => turn(kind),
+        5 => {
+            let w = wrap180(nominal);
+            if w < 0.0 {
+                (5, d, w + 360.0)
+            } else {
+                (8, d, w - 360.0)
+            }
+        }
+        6 | 7 => {
+            let raw = if kind == 6 {
+                [180.0, -180.0, 360.0, -360.0, 540.0, -540.0, 720.0, -720.0][(((u + 1.0) * 4.0) as usize).min(7)]
+            } else if (u * 1e6).round() as i64 % 2 == 0 {
+                (u * 720.0).round()
+            } else {
+                u * 720.0
+            };
+            let dd = wrap180(raw - centre);
+            if in_lon_domain(proj, bg, dd, lat) && (raw.abs() > 180.0 || kind == 6) {
+                (kind, dd, raw)
+            } else {
+                fallback()
+            }
+        }
+        _ => fallback(),
+    }
 }
 
 #[derive(Clone, Debug, Serialize, Deserialize)]
@@ -279,11 +370,7 @@ fn plan(c: &Case) -> Plan {
     } else {
         (bg.x_0.map(|f| f.0).unwrap_or(0.0), bg.y_0.map(|f| f.0).unwrap_or(0.0))
     };
-    let bg_centre = match c.proj {
-        Omerc => bg.lonc.map(|f| f.0).unwrap_or(0.0),
-        Utm | Butm => 6.0 * bg.zone.unwrap_or(31) as f64 - 183.0,
-        _ => bg.lon_0.map(|f| f.0).unwrap_or(0.0),
-    };
+    let bg_centre = centre_of(c.proj, bg);
     let k_bg = k_eff(c.proj, bg, rf);
     let mut p = Plan {
         def_l: String::new(),
@@ -583,8 +670,23 @@ fn check_rel(case: &Case, rec: &mut Rec, reg: Reg, strict: bool) -> CaseResult {
     // geographic inputs
     let mut geo_l: Vec<Coor4D> = Vec::with_capacity(case.pts.len());
     let mut geo_r: Vec<Coor4D> = Vec::with_capacity(case.pts.len());
-    for pt in &case.pts {
-        let mut lon_deg = p.centre_l + pt[0].0;
+    // the raw-longitude presentation applies to the relations that feed both instances the same longitude
+    let same_raw = !matches!(case.rel, Rel::CentralMeridian { .. } | Rel::Lonc { .. });
+    let pres_of = |i: usize| -> Option<&Pres> { case.pres.get(i).filter(|q| same_raw && q.kind != 0) };
+    let pres_note = |i: usize| -> String {
+        match pres_of(i) {
+            Some(q) => format!(
+                " [longitude presentation '{}': the raw longitude {:?} deg is fed bit-identically to both instances (nominal point: {:?} deg from the central meridian {:?})]",
+                PRES_NAMES[(q.kind as usize).min(PRES_NAMES.len() - 1)], q.lon.0, case.pts[i][0].0, p.centre_l
+            ),
+            None => String::new(),
+        }
+    };
+    for (i, pt) in case.pts.iter().enumerate() {
+        let mut lon_deg = match pres_of(i) {
+            Some(q) => q.lon.0,
+            None => p.centre_l + pt[0].0,
+        };
         if p.wrap {
             if lon_deg > 180.0 {
                 lon_deg -= 360.0;
@@ -651,8 +753,8 @@ fn check_rel(case: &Case, rec: &mut Rec, reg: Reg, strict: bool) -> CaseResult {
                 (false, false) => {}
                 _ => vfail!(
                     format!("nan-mismatch:{rel}@{label}/{dirs}"),
-                    "{rel}: '{}' at (lon, lat) = ({:?}, {:?}) rad gives {} but '{}' at ({:?}, {:?}) gives {}: one of them is NaN{note}",
-                    p.def_l, geo_l[i][0], geo_l[i][1], fmt_c4(&got), p.def_r, geo_r[i][0], geo_r[i][1], fmt_c4(&plane_r[i])
+                    "{rel}: '{}' at (lon, lat) = ({:?}, {:?}) rad gives {} but '{}' at ({:?}, {:?}) gives {}: one of them is NaN{note}{}",
+                    p.def_l, geo_l[i][0], geo_l[i][1], fmt_c4(&got), p.def_r, geo_r[i][0], geo_r[i][1], fmt_c4(&plane_r[i]), pres_note(i)
                 ),
             }
             let err = (got[0] - exp[0]).abs().max((got[1] - exp[1]).abs());
@@ -669,9 +771,9 @@ fn check_rel(case: &Case, rec: &mut Rec, reg: Reg, strict: bool) -> CaseResult {
             vensure!(
                 err <= tol,
                 key,
-                "{rel} (forward): '{}' at (lon, lat) = ({:?}, {:?}) rad gives ({:?}, {:?}); expected ({:?}, {:?}) = {:?} + {:?} * ('{}' at ({:?}, {:?}) = ({:?}, {:?}) minus {:?}); difference {:.3e} m, tolerance {:.3e} m{note}",
+                "{rel} (forward): '{}' at (lon, lat) = ({:?}, {:?}) rad gives ({:?}, {:?}); expected ({:?}, {:?}) = {:?} + {:?} * ('{}' at ({:?}, {:?}) = ({:?}, {:?}) minus {:?}); difference {:.3e} m, tolerance {:.3e} m{note}{}",
                 p.def_l, geo_l[i][0], geo_l[i][1], got[0], got[1], exp[0], exp[1], p.fo_l, p.s, p.def_r, geo_r[i][0], geo_r[i][1],
-                plane_r[i][0], plane_r[i][1], p.fo_r, err, tol
+                plane_r[i][0], plane_r[i][1], p.fo_r, err, tol, pres_note(i)
             );
             if case.pts[i][0].0 != 0.0 && case.pts[i][1].0 != 0.0 && offaxis.is_none() {
                 offaxis = Some(i);
@@ -717,8 +819,8 @@ fn check_rel(case: &Case, rec: &mut Rec, reg: Reg, strict: bool) -> CaseResult {
                 }
                 _ => vfail!(
                     format!("nan-mismatch:{rel}@{label}/{dirs}"),
-                    "{rel}: '{}' inverse of {} gives {} but '{}' inverse of {} gives {}: one of them is NaN{note}",
-                    p.def_l, fmt_c4(&in_l[j]), fmt_c4(&l), p.def_r, fmt_c4(&in_r[j]), fmt_c4(&r)
+                    "{rel}: '{}' inverse of {} gives {} but '{}' inverse of {} gives {}: one of them is NaN{note}{}",
+                    p.def_l, fmt_c4(&in_l[j]), fmt_c4(&l), p.def_r, fmt_c4(&in_r[j]), fmt_c4(&r), pres_note(idx[j])
                 ),
             }
             let dlon = wrap_pi(l[0] - (r[0] + p.shift));
@@ -742,8 +844,8 @@ fn check_rel(case: &Case, rec: &mut Rec, reg: Reg, strict: bool) -> CaseResult {
             vensure!(
                 err <= tol,
                 key,
-                "{rel} (inverse): '{}' at (x, y) = ({:?}, {:?}) gives (lon, lat) = ({:?}, {:?}) rad; '{}' at ({:?}, {:?}) gives ({:?}, {:?}); expected lon_l = lon_r + {:?} (mod 2pi), lat_l = lat_r; difference {:.3e} m on the ground (dlon {:.3e} rad, dlat {:.3e} rad), tolerance {:.3e} m{note}",
-                p.def_l, in_l[j][0], in_l[j][1], l[0], l[1], p.def_r, in_r[j][0], in_r[j][1], r[0], r[1], p.shift, err, dlon, dlat, tol
+                "{rel} (inverse): '{}' at (x, y) = ({:?}, {:?}) gives (lon, lat) = ({:?}, {:?}) rad; '{}' at ({:?}, {:?}) gives ({:?}, {:?}); expected lon_l = lon_r + {:?} (mod 2pi), lat_l = lat_r; difference {:.3e} m on the ground (dlon {:.3e} rad, dlat {:.3e} rad), tolerance {:.3e} m{note}{}",
+                p.def_l, in_l[j][0], in_l[j][1], l[0], l[1], p.def_r, in_r[j][0], in_r[j][1], r[0], r[1], p.shift, err, dlon, dlat, tol, pres_note(idx[j])
             );
             let i = idx[j];
             if case.pts[i][0].0 != 0.0 && case.pts[i][1].0 != 0.0 && offaxis.is_none() {
@@ -769,6 +871,24 @@ fn check_rel(case: &Case, rec: &mut Rec, reg: Reg, strict: bool) -> CaseResult {
                 _ => "intruder_refused_by_one",
             };
             rec.count(k, 1);
+        }
+    }
+    {
+        let (mut presented, mut outside) = (0u64, 0u64);
+        for i in 0..case.pts.len() {
+            if let Some(q) = pres_of(i) {
+                presented += 1;
+                rec.count(&format!("lonpres:{}", PRES_NAMES[(q.kind as usize).min(PRES_NAMES.len() - 1)]), 1);
+                if q.lon.0.abs() > 180.0 {
+                    outside += 1;
+                    rec.count(&format!("lonpres_raw_outside_pm180:{rel}@{}/{dirs}", case.proj.name()), 1);
+                }
+            }
+        }
+        if presented > 0 {
+            rec.count("cases_with_presented_longitudes", 1);
+            rec.count("presented_longitude_points", presented);
+            rec.count("presented_longitude_points_outside_pm180", outside);
         }
     }
     rec.count("exact_pole_points", case.pts.iter().filter(|p| p[1].0.abs() == 90.0).count() as u64);
@@ -859,6 +979,8 @@ struct Raw {
     mix_fo: bool,
     fwd: bool,
     pts: Vec<(f64, f64, u8)>,
+    /// longitude presentations of NPRES appended points: (kind selector, u, base point)
+    pres: Vec<(u8, f64, u16)>,
     intr: Vec<(u8, u16, f64, f64)>,
 }
 
@@ -874,7 +996,7 @@ fn raw(npts: usize) -> impl Strategy<Value = Raw> {
         ((0u8..6, unit()), (0u8..4, unit()), any::<bool>()),
         ((0u8..8, unit()), (0u8..8, unit()), (0u8..8, unit(), unit()), (0u8..8, unit()), (0u8..8, unit())),
         (any::<bool>(), any::<bool>(), any::<bool>(), any::<bool>()),
-        prop::collection::vec((unit(), unit(), 0u8..12), npts),
+        (prop::collection::vec((unit(), unit(), 0u8..12), npts), prop::collection::vec((1u8..8, unit(), any::<u16>()), NPRES)),
         // 0..3 tuples from outside of the domain, at any position of the operand set (weighted to the front)
         prop::collection::vec((0u8..4, prop_oneof![1 => Just(0u16), 3 => any::<u16>()], unit(), unit()), 0..4),
     )
@@ -902,7 +1024,8 @@ fn raw(npts: usize) -> impl Strategy<Value = Raw> {
             explicit_zero: f.1,
             mix_fo: f.2,
             fwd: f.3,
-            pts,
+            pts: pts.0,
+            pres: pts.1,
             intr,
         })
 }
@@ -1310,8 +1433,30 @@ fn build(kind: Kind, r: &Raw, reg: Reg, force: Option<Force>) -> Case {
             }
         }
     }
+    // the longitude-presentation dimension: NPRES further points, copies of points of the case presented
+    // with a raw longitude outside of the nominal range (appended point k has kind k+1, the last a drawn one)
+    let mut pres: Vec<Pres> = vec![];
+    if !matches!(rel, Rel::CentralMeridian { .. } | Rel::Lonc { .. }) {
+        let sel: Vec<(u8, f64, usize)> = r.pres.iter().enumerate().map(|(k, q)| (if k < 7 { k as u8 + 1 } else { q.0 }, q.1, pick(q.2, pts.len()))).collect();
+        append_presented(proj, &bg, &mut pts, &mut pres, &sel);
+    }
     let intruders = r.intr.iter().map(|(kind, pos, u, v)| Intruder { kind: *kind, pos: *pos, u: F(*u), v: F(*v) }).collect();
-    Case { proj, ellps, a: F(a), rf: F(rf), bg, rel, fwd, pts, intruders }
+    Case { proj, ellps, a: F(a), rf: F(rf), bg, rel, fwd, pts, intruders, pres }
+}
+
+/// append one presented copy of `pts[base]` per entry (kind, u, base) of `sel`
+fn append_presented(proj: Proj, bg: &Bg, pts: &mut Vec<[F; 2]>, pres: &mut Vec<Pres>, sel: &[(u8, f64, usize)]) {
+    let n = pts.len();
+    if n == 0 {
+        return;
+    }
+    pres.resize(n, Pres { kind: 0, lon: F(0.0) });
+    for (kind, u, base) in sel {
+        let b = pts[*base % n];
+        let (k, d, raw) = present(proj, bg, b[0].0, b[1].0, *kind, *u);
+        pts.push([F(d), b[1]]);
+        pres.push(Pres { kind: k, lon: F(raw) });
+    }
 }
 
 fn mix(mut x: u64) -> u64 {
@@ -1337,6 +1482,9 @@ struct AliasCase {
     suffix: u8,
     fwd: bool,
     data: Vec<P4>,
+    /// how many of the tuples (the trailing ones) are geographic tuples with a raw longitude outside of +-180 degrees
+    #[serde(default)]
+    raw_lon_tuples: u8,
 }
 
 fn check_alias(c: &AliasCase, rec: &mut Rec) -> CaseResult {
@@ -1371,6 +1519,10 @@ fn check_alias(c: &AliasCase, rec: &mut Rec) -> CaseResult {
     }
     vensure!(data.len() == before.len(), "noop-alias-changes-data", "'{}' changed the number of tuples", c.def);
     rec.class(&format!("{}{}", c.def.split(' ').next().unwrap_or(""), if c.suffix == 0 { "" } else { "+args" }));
+    if c.raw_lon_tuples > 0 {
+        rec.count("alias_cases_with_raw_longitude_tuples", 1);
+        rec.count("alias_raw_longitude_tuples_outside_pm180", c.raw_lon_tuples as u64);
+    }
     if !c.data.is_empty() {
         let bits: Vec<u64> = before.iter().flat_map(|c| (0..4).map(move |k| c[k].to_bits())).collect();
         rec.nontrivial(&(c.def.clone(), c.fwd, bits));
@@ -1427,6 +1579,7 @@ fn main() {
     run.assume("'unshifted' = minus the declared false origin (x_0, y_0), for utm/butm minus (500000, 0 | 10000000)");
     run.assume("tolerances: forward CP*eps*M plane metres with M the largest magnitude taking part (coordinates, false origin, 4*a*k_0), CP = 16; inverse CG*eps*(M/min(k_0,1) [x8 for laea, and x sec(lat) because its inverse takes asin(sin xi)] + 8a) ground metres, CG = 64, plus 10 um for somerc whose inverse is iterative; identical code paths (utm vs tmerc, lcc 1SP vs 2SP) 1e-9 m; merc vs webmerc additionally x sec(lat) (two closed forms of the isometric latitude)");
     run.assume("ellipsoids as `ellps=a,rf` text carry the values their decimal text parses to; spheres of arbitrary radius are written `R,inf` (reciprocal flattening infinite = flattening 0) and skipped if that spelling is not accepted");
+    run.assume("longitude presentation: the relations are stated for the operators as functions of the raw input, so raw longitudes outside of [-180, 180] deg (0..360 conventions, unwrapped tracks; out to +-720 deg + central meridian) are valid inputs; both instances of a relation get the bit-identical raw value and the relation is asserted with the unchanged tolerance model (whose magnitude term M includes the results themselves), whether or not an operator wraps its input. Periodicity of a single operator is not asserted here (C01/C05/C14). The central-meridian relation is not presented (its two instances get different longitudes; it stays literal)");
     run.assume("lat_0 is never used for merc (no meaning given by the property); for tmerc, btmerc, lcc, laea, somerc it only appears as a background parameter with the same value on both sides");
 
     let npts = 16;
@@ -1465,7 +1618,7 @@ fn main() {
         let n = run.scale(q, th);
         run.section(
             name,
-            &format!("{rule}; non-trivial = relation parameter differs from its default and a point is off the central meridian and off the equator; distinct by (relation, projection/aspect, ellipsoid, direction, parameter, first such point)"),
+            &format!("{rule}; in every relation but the central-meridian one each case carries 8 further points = points of the case presented with a raw longitude outside of the nominal range (+-1 and +-2 full turns, 0..360 / -360..0 style, exactly +-180/+-360/+-540/+-720, free raw values to +-720 deg where they name a point of the domain), fed bit-identically to both instances; non-trivial = relation parameter differs from its default and a point is off the central meridian and off the equator; distinct by (relation, projection/aspect, ellipsoid, direction, parameter, first such point)"),
             n,
             move || raw(npts).prop_map(move |r| build(kind, &r, reg, None)),
             lenient,
@@ -1478,7 +1631,7 @@ fn main() {
         let n = 60 * 2 * 2 * nell * 2;
         run.enumerate(
             "utm-zones",
-            "all 60 zones x north/south x {utm vs tmerc, butm vs btmerc} x every usable built-in ellipsoid x {forward, inverse}; 16 points per case within 30 deg (utm) / 3 deg (butm) of the zone's central meridian, |lat| <= 89 / 85, one of them on the central meridian and one on the equator, six exact boundary points (poles, latitude 0 and -0, central meridian); y_0=0 written explicitly in half of the northern cases",
+            "all 60 zones x north/south x {utm vs tmerc, butm vs btmerc} x every usable built-in ellipsoid x {forward, inverse}; 16 points per case within 30 deg (utm) / 3 deg (butm) of the zone's central meridian, |lat| <= 89 / 85, one of them on the central meridian and one on the equator, six exact boundary points (poles, latitude 0 and -0, central meridian), and 8 further points presented with raw longitudes outside of [-180, 180] deg (+-1/+-2 turns, 0..360 style, exact multiples of 180, free raw values); y_0=0 written explicitly in half of the northern cases",
             n,
             move |i| {
                 let zone = (i % 60) as u8 + 1;
@@ -1511,7 +1664,13 @@ fn main() {
                 if i % 6 == 0 {
                     intruders.push(Intruder { kind: 0, pos: (mix(i as u64 ^ 77) & 0xffff) as u16, u: F(0.0), v: F(0.0) });
                 }
-                Case { proj, ellps: e.0.clone(), a: F(e.1), rf: F(e.2), bg, rel: Rel::UtmZone { explicit_y0: zone % 2 == 0 }, fwd, pts, intruders }
+                // longitude presentation: 8 further points with raw longitudes outside of [-180, 180] (all kinds)
+                let mut pres = vec![];
+                let sel: Vec<(u8, f64, usize)> = (0..NPRES as u64)
+                    .map(|k| (if k < 7 { k as u8 + 1 } else { 1 + (mix(i as u64 ^ 555) % 7) as u8 }, h11(i as u64, 200 + k), (mix(i as u64 ^ (900 + k)) % 16) as usize))
+                    .collect();
+                append_presented(proj, &bg, &mut pts, &mut pres, &sel);
+                Case { proj, ellps: e.0.clone(), a: F(e.1), rf: F(e.2), bg, rel: Rel::UtmZone { explicit_y0: zone % 2 == 0 }, fwd, pts, intruders, pres }
             },
             strict,
         );
@@ -1522,16 +1681,34 @@ fn main() {
         let n = run.scale(90_000, 1_000_000);
         run.section(
             "noop-aliases",
-            "noop, longlat, latlon, latlong, lonlat (bare, with inv, with parameters outside their empty gamut) x both directions x 0..8 tuples drawn from all f64 classes (NaN payloads, infinities, -0, subnormals, huge); all four elements compared by bit pattern; non-trivial = non-empty data",
+            "noop, longlat, latlon, latlong, lonlat (bare, with inv, with parameters outside their empty gamut) x both directions x 0..8 tuples drawn from all f64 classes (NaN payloads, infinities, -0, subnormals, huge) plus 0..3 geographic tuples whose longitude is presented outside of +-180 degrees (full turns, 0..360, exact +-180/360/540/720, free to +-720; radians or degrees); all four elements compared by bit pattern; non-trivial = non-empty data",
             n,
             || {
-                (0usize..ALIASES.len(), 0usize..ALIAS_SUFFIX.len(), any::<bool>(), prop::collection::vec(any_p4_class(), 0..8)).prop_map(
-                    |(a, s, fwd, data)| AliasCase { def: format!("{}{}", ALIASES[a], ALIAS_SUFFIX[s]), suffix: s as u8, fwd, data },
+                (
+                    0usize..ALIASES.len(),
+                    0usize..ALIAS_SUFFIX.len(),
+                    any::<bool>(),
+                    prop::collection::vec(any_p4_class(), 0..8),
+                    // geographic tuples (lon, lat, h, t) with the longitude presented outside of +-180 degrees, in
+                    // radians or in degrees (the aliases do not know which): every presentation kind of the relations
+                    prop::collection::vec((1u8..8, unit(), unit(), unit(), any::<bool>()), 0..4),
                 )
+                    .prop_map(|(a, s, fwd, mut data, geo)| {
+                        let mut n = 0u8;
+                        for (kind, u, v, w, deg) in geo {
+                            let (_, _, raw) = present(Merc, &Bg::default(), u * 180.0, v * 90.0, kind, w);
+                            if raw.abs() > 180.0 {
+                                n += 1;
+                                let (lon, lat) = if deg { (raw, v * 90.0) } else { (raw.to_radians(), (v * 90.0).to_radians()) };
+                                data.push(p4(lon, lat, w * 1000.0, 2000.0 + 30.0 * u));
+                            }
+                        }
+                        AliasCase { def: format!("{}{}", ALIASES[a], ALIAS_SUFFIX[s]), suffix: s as u8, fwd, data, raw_lon_tuples: n }
+                    })
             },
             check_alias,
         );
     }
 
-    run.finish("pairs of differently parameterised instances of the same projection (or derived operator and its base) compared through apply(Fwd) and apply(Inv) on generated points of the domain; a case is non-trivial when the relation parameter differs from its default and at least one point lies off the central meridian and off the equator; the 60 x 2 UTM zones are enumerated exhaustively for every built-in ellipsoid");
+    run.finish("pairs of differently parameterised instances of the same projection (or derived operator and its base) compared through apply(Fwd) and apply(Inv) on generated points of the domain, each same-raw-longitude relation also on those points presented with raw longitudes outside of [-180, 180] deg (out to +-720 deg); a case is non-trivial when the relation parameter differs from its default and at least one point lies off the central meridian and off the equator; the 60 x 2 UTM zones are enumerated exhaustively for every built-in ellipsoid");
 }
